@@ -588,9 +588,16 @@ func runC16(e *env) {
 	}
 
 	lap("gen")
-	// ---- 6. partition rings
+	// ---- 6. partition rings: AddPartition on a real PartitionRingDesc (states, clocks, re-adds,
+	// pre-existing locked entries that must be overwritten, negative ids)
 	r6 := newRng(e.seed, 165)
-	type partJob struct{ ids []int }
+	type partOp struct {
+		kind byte // 'A' AddPartition, 'S' seed a locked entry directly in the map
+		id   int
+		st   int
+		now  int64
+	}
+	type partJob struct{ ops []partOp }
 	var pj []partJob
 	for i := 0; i < 300*genScale; i++ {
 		k := 1 + r6.intn(6)
@@ -617,16 +624,35 @@ func runC16(e *env) {
 		if r6.chance(1, 5) { // re-add one
 			ids = append(ids, ids[r6.intn(len(ids))])
 		}
-		pj = append(pj, partJob{ids})
+		var ops []partOp
+		if r6.chance(1, 4) { // an entry that AddPartition has to overwrite completely
+			ops = append(ops, partOp{kind: 'S', id: ids[r6.intn(len(ids))]})
+		}
+		if r6.chance(1, 6) { // an unrelated entry that must survive
+			ops = append(ops, partOp{kind: 'S', id: lim + 5 + r6.intn(3)})
+		}
+		for _, id := range ids {
+			ops = append(ops, partOp{kind: 'A', id: id, st: r6.intn(5), now: int64(1600000000 + r6.intn(200000000))})
+		}
+		if r6.chance(1, 25) { // negative id: generateTokensByInstanceID panics
+			ops = append(ops, partOp{kind: 'A', id: -1 - r6.intn(3), st: 2, now: 1700000000})
+		}
+		pj = append(pj, partJob{ops})
 	}
-	pres := c16Parallel(len(pj), func(i int) string {
+	pres := c16Parallel(len(pj), func(i int) (out string) {
 		d := ring.NewPartitionRingDesc()
-		for _, id := range pj[i].ids {
-			st := ring.PartitionActive
-			if id%2 == 1 {
-				st = ring.PartitionPending
+		defer func() {
+			if rec := recover(); rec != nil {
+				out = "err:panic"
 			}
-			d.AddPartition(int32(id), st, time.Unix(1700000000, 0))
+		}()
+		for _, op := range pj[i].ops {
+			if op.kind == 'S' {
+				d.Partitions[int32(op.id)] = ring.PartitionDesc{Id: int32(op.id), Tokens: []uint32{1, 2, 3}, State: ring.PartitionInactive,
+					StateTimestamp: 7, StateChangeLocked: true, StateChangeLockedTimestamp: 5}
+				continue
+			}
+			d.AddPartition(int32(op.id), ring.PartitionState(op.st), time.Unix(op.now, 0))
 		}
 		keys := make([]int, 0, len(d.Partitions))
 		for k := range d.Partitions {
@@ -635,16 +661,25 @@ func runC16(e *env) {
 		sort.Ints(keys)
 		parts := make([]string, len(keys))
 		for x, k := range keys {
-			parts[x] = u32s(d.Partitions[int32(k)].Tokens)
+			p := d.Partitions[int32(k)]
+			lk := 0
+			if p.StateChangeLocked {
+				lk = 1
+			}
+			parts[x] = fmt.Sprintf("%d/%d/%d/%d/%d/%s", p.Id, int(p.State), p.StateTimestamp, lk, p.StateChangeLockedTimestamp, u32s(p.Tokens))
 		}
 		return strings.Join(parts, ";")
 	})
 	for i, j := range pj {
-		ids := make([]string, len(j.ids))
-		for x, id := range j.ids {
-			ids[x] = itoa(id)
+		ops := make([]string, len(j.ops))
+		for x, op := range j.ops {
+			if op.kind == 'S' {
+				ops[x] = fmt.Sprintf("S:%d", op.id)
+			} else {
+				ops[x] = fmt.Sprintf("A:%d:%d:%d", op.id, op.st, op.now)
+			}
 		}
-		e.emit("C16.part", strings.Join(ids, ","), "-", "-", pres[i])
+		e.emit("C16.part", strings.Join(ops, ","), "-", "-", pres[i])
 	}
 	lap("part")
 }
